@@ -6,7 +6,8 @@ ENGINES = ["chain"]
 
 def run(tier, replay):
     return run_chain_check(PID, tier, replay,
-                           mc_quick=["mc/MC_Chain_locks_q"], mc_thorough=["mc/MC_Chain_locks_t"],
-                           sim_cfg="mc/MC_Chain_simemit_locks", n_quick=160, n_thorough=1600,
-                           focus="MaturityLockInv: coinbase spends one below / at / above creation height + 3 incl. coinbases on the other side of a fork point, height-locked kernels with lock in {h, h+1}, re-evaluated when fork blocks are re-applied during reorgs; accept/reject class compared at each boundary",
-                           assumptions=["NRD (relative lock) kernels are not yet in the model: that clause of C13 is not covered by this check"])
+                           mc_quick=["mc/MC_Chain_locks_q"], mc_thorough=["mc/MC_Chain_locks_t", "mc/MC_Chain_nrd_t"],
+                           sim_cfg="mc/MC_Chain_simemit_locks", n_quick=100, n_thorough=1200,
+                           extra_sims=[("mc/MC_Chain_simemit_nrd", 60, 600)],
+                           focus="MaturityLockInv + NrdInv (recent-kernel index = NRD history of the best chain; duplicate-excess kernels on the same and on competing forks separated by rewinds): coinbase spends one below / at / above creation height + 3 incl. coinbases on the other side of a fork point, height-locked kernels with lock in {h, h+1}, re-evaluated when fork blocks are re-applied during reorgs; accept/reject class compared at each boundary",
+                           assumptions=["NRD kernels: 2 excess keys, relative heights {1,2}, allowed from height 9 (header v4 under AutomatedTesting); exhaustive NRD configuration in the thorough tier only, quick tier replays random NRD behaviours"])
